@@ -634,6 +634,38 @@ def run_writer(fmt, inters, sanitize):
     return sink.buf.getvalue()
 
 
+def har_secret_oracle(chk, inters, har):
+    """Independent of the model: the HAR entry of a sanitised run shows neither the userinfo nor a value stored under a
+    credential-bearing name (URL, queryString records, request/response header records)."""
+    sets = ref_sets(rand_cfg_default())
+    marker = sets[2]
+    for it, h in zip(inters, har["log"]["entries"]):
+        u = it["url"]
+        case = {"interaction": it}
+        url = h["request"]["url"]
+        if "@" in u["netloc"]:
+            chk.count("har_entry:url-with-userinfo")
+            host = u["netloc"].rsplit("@", 1)[1]
+            userinfo = u["netloc"].rsplit("@", 1)[0]
+            if not url.startswith(f"{u['scheme']}://{marker}@{host}"):
+                chk.fail("HAR request.url does not carry the redaction marker in place of the userinfo", case, url, region=None)
+            if len(userinfo) >= 4 and userinfo + "@" in json.dumps(h):
+                chk.fail("URL userinfo appears in the HAR entry", case, url, region=None)
+        for rec in h["request"]["queryString"]:
+            if ref_sensitive(sets, rec["name"]) and rec["value"] != marker:
+                chk.fail("HAR queryString record with a sensitive name keeps its value", case, rec, region=None)
+        sensitive_q = {k for k, _ in u["query"] if ref_sensitive(sets, k)}
+        if sensitive_q and not sensitive_q <= {rec["name"] for rec in h["request"]["queryString"]}:
+            chk.fail("HAR queryString lost a sensitive-named parameter instead of redacting it", case, h["request"]["queryString"], region=None)
+        for k, v in u["query"]:
+            if ref_sensitive(sets, k) and v and v != marker and urlencode([(k, v)]) in url.partition("#")[0].partition("?")[2].split("&"):
+                chk.fail("sensitive query value appears in HAR request.url", case, url, region=None)
+        records = list(h["request"]["headers"]) + (list(h["response"]["headers"]) if it["resp_headers"] is not None else [])
+        for rec in records:
+            if ref_sensitive(sets, rec["name"]) and rec["value"] != marker:
+                chk.fail("HAR header record with a sensitive name keeps its value", case, rec, region=None)
+
+
 def stage_writers(chk, n):
     import yaml
 
@@ -660,7 +692,7 @@ def stage_writers(chk, n):
             continue
         try:
             har = json.loads(run_writer("har", inters, san))
-        except ValueError as exc:  # urlparse on http://[Filtered]@host
+        except Exception as exc:  # noqa: BLE001  (before repo fix 8fd7266e: urlparse on http://[Filtered]@host)
             har = None
             har_exc = f"{type(exc).__name__}: {exc}"
         model_raises = any(m[4] is None for m in ms)
@@ -668,7 +700,9 @@ def stage_writers(chk, n):
             chk.disagree("har_writer raising vs Model_C15.har_entry = None", {"sanitize": san, "interactions": inters}, har_exc if har is None else "no exception", "raises" if model_raises else "no exception")
             continue
         if har is None:
-            chk.count("har_writer:raises-on-sanitised-userinfo")
+            chk.count("har_writer:raises(model agrees)")
+        elif san:
+            har_secret_oracle(chk, inters, har)
         ms_iter = iter(ms)
         for idx, it in enumerate(inters):
             m_uri, m_rq, m_rs, _o, m_har = next(ms_iter)
@@ -693,7 +727,7 @@ def stage_writers(chk, n):
             if resp is not None:
                 loc_vs = [pstr(x) for x in resp[1][2]]
                 loc = loc_vs[0] if loc_vs else ""
-            mod_h = {"url": url_string(mu), "query": parse_qsl(urlsplit(url_string(mu)).query, keep_blank_values=True),
+            mod_h = {"url": url_string(mu), "query": [(pstr(k), pstr(v)) for k, v in mh["h_query"]],
                      "req": sorted((pstr(k), pstr(v)) for k, v in mh["h_req_headers"]),
                      "resp": None if resp is None else sorted((pstr(k), pstr(v)) for k, v in resp[1][0]),
                      "redirect": loc}
@@ -816,7 +850,7 @@ def canary_forms(name, value):
 
 def stage_cli_search(chk, scenarios):
     rec = Recorder(cli_responder)
-    stats = {"runs": 0, "leaks_inside_listed_regions": {}, "har_writer_crashed_on_sanitised_userinfo": 0}
+    stats = {"runs": 0, "leaks_inside_listed_regions": {}, "har_without_entries": 0}
     try:
         for sc in scenarios:
             arte = run_cli(rec, **sc)
@@ -831,10 +865,11 @@ def stage_cli_search(chk, scenarios):
                 continue
             har_ok = '"entries"' in parts["har.json"] and '"X-Plain"' in parts["har.json"]
             if not har_ok:
-                if sc["userinfo"] and sc["sanitize"]:
-                    stats["har_writer_crashed_on_sanitised_userinfo"] += 1  # urlparse rejects http://[Filtered]@host - no output, no leak
-                else:
-                    chk.disagree("HAR file has no entries", case, parts["har.json"][:300], None)
+                # before repo fix 8fd7266e the writer thread died on http://[Filtered]@host: the HAR report is then not "redacted", it is missing
+                stats["har_without_entries"] += 1
+                chk.fail("st run --report har wrote no entries (HAR writer died?)", case, parts["har.json"][:300], region=None)
+            elif sc["userinfo"] and sc["sanitize"] and f"[Filtered]@127.0.0.1:{rec.port}" not in parts["har.json"]:
+                chk.fail("HAR entries of a run whose base URL has userinfo do not show the redaction marker", case, parts["har.json"][:600], region=None)
             used = dict(CAN)
             if not sc["userinfo"]:
                 used.pop("userinfo_user"), used.pop("userinfo_pass")
@@ -895,6 +930,15 @@ def witness_fails(w) -> bool:
                  "base": "http://127.0.0.1:8080/api", "sanitize": True}
         cmd = make_case(parts).as_curl_command(headers=parts["given"] or None)
         return w["needle"] in cmd
+    if kind == "har_userinfo":
+        it = {"url": {**w["url"], "query": [tuple(kv) for kv in w["url"]["query"]]}, "req_headers": w["req_headers"], "resp_headers": None}
+        stub_recorder([it])  # a harness problem must not look like the defect
+        try:
+            har = json.loads(run_writer("har", [it], True))
+        except Exception:  # noqa: BLE001
+            return True
+        text = json.dumps(har["log"]["entries"])
+        return len(har["log"]["entries"]) != 1 or w["needle_absent"] in text or w["needle_present"] not in text
     raise ValueError(kind)
 
 
